@@ -215,8 +215,11 @@ package sync
 //@ func (d *EVMDriver) Sync (d, ctx)
 //@   props C06 C05
 //@   requires d != nil && d.log != nil && d.rh != nil && d.processor != nil && d.reorgDetector != nil && d.downloader != nil && d.reorgSub != nil && d.compatibilityChecker != nil
-//@   modifies heap, storeLast, trackedNum, trackOKCount, processedOK, lastProcessedNum, reorgedOK, lastReorgFrom
+//@   modifies heap, storeLast, trackedNum, trackOKCount, processedOK, lastProcessedNum, reorgedOK, lastReorgFrom, ctxEnded
 //@   assert go:Download arg1 == (storeLast + 1) % 18446744073709551616
+// the driver's loop is left only through the Done case of its own context (the safety shadow of "the syncer keeps
+// delivering": no error of a block, a reorg or the store ends it; termination is not decided)
+//@   ensures[stops-only-when-its-context-ended] ctxEnded
 //@   loop 0 invariant d != nil && d.log != nil && d.rh != nil && d.processor != nil && d.reorgDetector != nil && d.downloader != nil && d.reorgSub != nil && d.compatibilityChecker != nil
 //@   loop 1 invariant d != nil && d.log != nil && d.rh != nil && d.processor != nil && d.reorgDetector != nil && d.downloader != nil && d.reorgSub != nil && d.compatibilityChecker != nil
 //@   loop 2 invariant d != nil && d.log != nil && d.rh != nil && d.processor != nil && d.reorgDetector != nil && d.downloader != nil && d.reorgSub != nil && d.compatibilityChecker != nil
